@@ -1606,6 +1606,111 @@ class Normaliser:
                             else:
                                 setattr(n, f, new)
 
+    def fuse_pipelines(self, node):
+        """A chain of list comprehensions over one source - `A = [e1 for t1 in S]; B = [e2 for t2 in A if c]; X = np.array([e3 for t3 in B])`
+        - is read as the single loop it describes: `for t1 in S: t2 = e1; if c: t3 = e2; X = np.append(X, e3)`.  Applied to runs of
+        consecutive top-level statements whose intermediate lists are used by later stages only (no other reads), so that the
+        element-by-element reading is exact for side-effect-free element expressions."""
+        def stage_of(st):
+            if not (isinstance(st, ast.Assign) and len(st.targets) == 1 and isinstance(st.targets[0], ast.Name)):
+                return None
+            v = st.value
+            kind = 'list'
+            if isinstance(v, ast.Call) and U(v.func) in ('np.array', 'numpy.array', 'np.asarray') and len(v.args) == 1 and not v.keywords:
+                v, kind = v.args[0], 'array'
+            if isinstance(v, ast.ListComp) and len(v.generators) == 1 and not v.generators[0].is_async:
+                g = v.generators[0]
+                return dict(name=st.targets[0].id, kind=kind, elt=v.elt, target=g.target, iter=g.iter, ifs=g.ifs, stmt=st)
+            return None
+        body = node.body
+        i = 0
+        while i < len(body):
+            run_ = []
+            j = i
+            while j < len(body):
+                sg = stage_of(body[j])
+                if sg is None:
+                    break
+                run_.append(sg)
+                j += 1
+            if len(run_) < 2:
+                i = j + 1 if j == i else j
+                continue
+            names = {sg['name'] for sg in run_}
+            if len(names) != len(run_):
+                i = j
+                continue
+            # sources: a stage iterates a plain name (an earlier stage) or the root
+            def src(sg):
+                return sg['iter'].id if isinstance(sg['iter'], ast.Name) and sg['iter'].id in names else None
+            roots = [sg for sg in run_ if src(sg) is None]
+            if len(roots) != 1 or roots[0] is not run_[0]:
+                i = j
+                continue
+            # every stage but the root reads an EARLIER stage
+            order = {sg['name']: k for k, sg in enumerate(run_)}
+            if any(src(sg) is None or order[src(sg)] >= order[sg['name']] for sg in run_[1:]):
+                i = j
+                continue
+            # an intermediate list may be read by later stages only (as their source); a final one by no stage
+            consumers = {}
+            for sg in run_[1:]:
+                consumers.setdefault(src(sg), []).append(sg)
+            ok = True
+            finals = []
+            rest = body[j:]
+            for sg in run_:
+                reads_in_run = [x for s2 in run_ for x in ast.walk(s2['stmt'].value) if isinstance(x, ast.Name) and x.id == sg['name']]
+                reads_after = [x for s2 in rest for x in ast.walk(s2) if isinstance(x, ast.Name) and x.id == sg['name'] and isinstance(x.ctx, ast.Load)]
+                if sg['name'] in consumers:
+                    if len(reads_in_run) != len(consumers[sg['name']]) or reads_after or sg['kind'] != 'list':
+                        ok = False
+                else:
+                    if reads_in_run:
+                        ok = False
+                    finals.append(sg)
+            if not ok or not finals:
+                i = j
+                continue
+
+            def emit(sg):
+                """statements executed for one element of sg's source, with sg['target'] bound"""
+                inner = []
+                if sg['name'] in consumers:
+                    for c in consumers[sg['name']]:
+                        bind = ast.Assign(targets=[clone(c['target'])], value=clone(sg['elt']))
+                        for x in ast.walk(bind.targets[0]):
+                            if hasattr(x, 'ctx'):
+                                x.ctx = ast.Store()
+                        inner.append(ast.copy_location(bind, c['stmt']))
+                        inner.extend(emit(c))
+                else:
+                    nm = sg['name']
+                    if sg['kind'] == 'array':
+                        acc = ast.Assign(targets=[ast.Name(id=nm, ctx=ast.Store())],
+                                         value=ast.Call(func=ast.Attribute(value=ast.Name(id='np', ctx=ast.Load()), attr='append', ctx=ast.Load()),
+                                                        args=[ast.Name(id=nm, ctx=ast.Load()), clone(sg['elt'])], keywords=[]))
+                    else:
+                        acc = ast.Expr(value=ast.Call(func=ast.Attribute(value=ast.Name(id=nm, ctx=ast.Load()), attr='append', ctx=ast.Load()),
+                                                      args=[clone(sg['elt'])], keywords=[]))
+                    inner.append(ast.copy_location(acc, sg['stmt']))
+                for c_ in reversed(sg['ifs']):
+                    inner = [ast.copy_location(ast.If(test=clone(c_), body=inner, orelse=[]), sg['stmt'])]
+                return inner
+            root = run_[0]
+            inits = []
+            for sg in finals:
+                init_v = ast.Call(func=ast.Attribute(value=ast.Name(id='np', ctx=ast.Load()), attr='array', ctx=ast.Load()),
+                                  args=[ast.List(elts=[], ctx=ast.Load())], keywords=[]) if sg['kind'] == 'array' else ast.List(elts=[], ctx=ast.Load())
+                inits.append(ast.copy_location(ast.Assign(targets=[ast.Name(id=sg['name'], ctx=ast.Store())], value=init_v), sg['stmt']))
+            loop = ast.copy_location(ast.For(target=clone(root['target']), iter=clone(root['iter']), body=emit(root), orelse=[]), root['stmt'])
+            for x in ast.walk(loop.target):
+                if hasattr(x, 'ctx'):
+                    x.ctx = ast.Store()
+            body[i:j] = inits + [loop]
+            ast.fix_missing_locations(node)
+            i += len(inits) + 1
+
     def run(self):
         node = clone(self.fi.node)
         self.memo_issues = []
@@ -1613,6 +1718,7 @@ class Normaliser:
             for ch_ in ast.iter_child_nodes(n_):
                 ch_._parent = n_
         self.one_shot_iterators(node)
+        self.fuse_pipelines(node)
         self.dememoise(node)
         node.body = self.block(node.body, {}, (self.fi.qualname,))
         self.dememoise(node)          # memo tables that came in with inlined helpers
